@@ -190,7 +190,12 @@ def single_formulas(rep):
         if not used:
             continue
         text = formgen.text(t2, None, 'min')
-        vals = {r: rnd.choice([0, 1, 2, -3, 2.5, 'ab', True, 7]) for r in set(used)}
+        from formulas.tokens.operand import Error, XlError
+        pool = [0, 1, 2, -3, 2.5, 'ab', True, 7]
+        if rnd.random() < 0.5:      # which of two different errors arises must agree too
+            pool = pool + [Error.errors['#N/A'], Error.errors['#DIV/0!'], Error.errors['#N/A'],
+                           Error.errors['#DIV/0!']]
+        vals = {r: rnd.choice(pool) for r in set(used)}
         rep.count()
         try:
             func = f.Parser().ast(text)[1].compile()
@@ -204,6 +209,8 @@ def single_formulas(rep):
             got = {'k': 'raise', 'repr': type(ex).__name__}
 
         def lit(x):
+            if isinstance(x, XlError):
+                return str.__str__(x)
             if isinstance(x, bool):
                 return 'TRUE' if x else 'FALSE'
             if isinstance(x, str):
